@@ -54,11 +54,27 @@ class Report:
         out_lines = []
         real = []
         hit = set()
+        allk = {k["key"]: k for k in known.get("findings", [])}
         for v in self.violations:
             match = next((k for k in kf if k["key"] == v["key"]), None)
             if match is not None:
                 hit.add(match["key"])
                 continue
+            if self.pid == "C11" and v["key"].startswith("BND.C11."):
+                # pooled-mode twin of a listed finding: the same optimizer failing at the same call site with the same exception
+                # (or passing the same NaN candidate) in thread / process mode is that finding observed in another mode - which
+                # of an optimizer's listed failures a pooled run meets first depends on the scheduling of the workers
+                parts = v["key"].split(".")
+                opt_, rest = parts[2], parts[4:]
+                twin = None
+                if rest == ["C05"]:
+                    twin = f"BND.C05.{opt_}"
+                elif len(rest) >= 2:
+                    twin = f"BND.C06.{opt_}." + ".".join(rest)
+                if twin in allk:
+                    out_lines.append(f"KNOWN-FINDING: property={self.pid} {v['key']} - pooled-mode twin of the listed finding {twin}: "
+                                     f"{allk[twin]['what'][:120]}")
+                    continue
             real.append(v)
         for k in kf:
             out_lines.append(f"KNOWN-FINDING: property={self.pid} {k['key']} - {k['what']}"
